@@ -529,7 +529,7 @@ thread_local! {
   static FAULT: std::cell::RefCell<FaultState> = std::cell::RefCell::new(FaultState::default());
 }
 /// faults for a position that must hold an int; `{}` is the well-typed text of the position
-const INT_FAULTS: [(&str, &str); 42] = [
+const INT_FAULTS: [(&str, &str); 43] = [
   ("a bool where an int is required", "true"),
   ("a string where an int is required", "\"s\""),
   ("an enum value where an int is required", "Color.Red()"),
@@ -572,6 +572,7 @@ const INT_FAULTS: [(&str, &str); 42] = [
   ("a private field read outside its class", "({} + Secret9.make9().hidden)"),
   ("an else-if chain of another type than the first branch", "(if false { {} } else if true { \"a\" } else { \"b\" })"),
   ("a generic function used as a value at a type that violates its bound", "{ let h9: (Pair, Pair) -> int = Sorter9.first; {} }"),
+  ("a class object where the bound of the type parameter is that class", "{ let n9 = {}; Sorter9.same(Boxed9) }"),
 ];
 /// a module of its own that only declares an interface and imports nothing, naming an unknown class
 const INTERFACE_ONLY_MODULE: &str = "interface Lonely9 { method m(): Missing9 }\n";
@@ -613,7 +614,7 @@ const IMPORT_FAULTS: [(&str, &str); 4] = [
 const LIB_MODULE: &str = "class Helper9 {\n  function pub9(): int = 1\n  private function hid9(): int = 2\n}\nclass Main(val k: int) {\n  private method secret9(): int = this.k\n  function make9(): Main = Main.init(7)\n}\nclass Factory9 {\n  function get9(): Main = Main.make9()\n}\nclass Secret9(private val hidden: int) {\n  function make9(): Secret9 = Secret9.init(3)\n}\nprivate class Hidden9 {\n  function f(): int = 1\n}\n";
 /// what the rejection search puts in front of / behind the generated program (all well-formed)
 const REJECTS_IMPORTS: &str = "import { Helper9, Factory9, Secret9 } from Lib;\n";
-const REJECTS_DECLARATIONS: &str = "interface Cmp9<T> { method cmp(other: T): int }\nclass Boxed9(val v: int) : Cmp9<Boxed9> {\n  method cmp(other: Boxed9): int = this.v - other.v\n}\nclass Sorter9 {\n  function <C: Cmp9<C>> first(a: C, b: C): int = a.cmp(b)\n  function use9(): int = Sorter9.first(Boxed9.init(1), Boxed9.init(2)) + Helper9.pub9() + Factory9.get9().k\n}\n";
+const REJECTS_DECLARATIONS: &str = "interface Cmp9<T> { method cmp(other: T): int }\nclass Boxed9(val v: int) : Cmp9<Boxed9> {\n  method cmp(other: Boxed9): int = this.v - other.v\n}\nclass Sorter9 {\n  function <C: Cmp9<C>> first(a: C, b: C): int = a.cmp(b)\n  function <B: Boxed9> same(x: B): int = 1\n  function use9(): int = Sorter9.same(Boxed9.init(5)) + Sorter9.first(Boxed9.init(1), Boxed9.init(2)) + Helper9.pub9() + Factory9.get9().k\n}\n";
 const BOOL_FAULTS: [(&str, &str); 5] = [
   ("an int where a bool is required", "1"),
   ("a string where a bool is required", "\"s\""),
@@ -1568,7 +1569,7 @@ fn tokens_of(text: &str) -> Vec<String> {
 fn verif_witness_search_gen_nocrash() {
   let seed = std::env::var("VERIF_SEED").ok().and_then(|s| s.parse::<u64>().ok()).unwrap_or(0);
   let mut rng = Rng(0xA0761D6478BD642F ^ seed.wrapping_mul(0x2545F4914F6CDD1D));
-  let (n_programs, per_program) = (count_for_tier(4, 20), count_for_tier(45, 150));
+  let (n_programs, per_program) = (count_for_tier(4, 10), count_for_tier(45, 120));
   let (mut programs_done, mut damaged, mut still_compiled) = (0, 0, 0);
   std::panic::set_hook(Box::new(|_| {}));
   while programs_done < n_programs {
